@@ -239,6 +239,18 @@ fn trace_case(cfg: &Cfg, cursors: &[Cursor], input: &str, out: &mut String) {
         )
         .unwrap();
     }
+    // the conditional-directive passes (hook)
+    {
+        let passes = pasfmt_core::defaults::parser::verif_directive_passes(&raw);
+        writeln!(out, "PASSES {}", passes.len()).unwrap();
+        for p in &passes {
+            let mut s = String::from("p");
+            for i in p {
+                write!(s, " {}", i).unwrap();
+            }
+            writeln!(out, "{}", s).unwrap();
+        }
+    }
     // S2: parse
     let (mut lines, mut tokens) = DelphiLogicalLineParser {}.parse(raw);
     writeln!(out, "PARSED {}", tokens.len()).unwrap();
